@@ -33,6 +33,8 @@ SEEDS = [
     ('condition', 'max({x, y, 3, 4}) < len(ws) + @A.n'),
     ('condition', 'x in [0 to INF] or @A.v in ![-INF to 3] or zs[i] in [1 to 5]!'),
     ('condition', 'forall x in {@a, 1}: (@x = b or str(@x) = c)'),
+    ('condition', 'forall i in {x, y, 2}: (@i > 0 and p)'),
+    ('condition', 'not (exists j in {a, b}: (@j or q)) and (forall k in {u, @A.w}: -@k < 3)'),
     ('condition', 'exists y in @A.zs: (@y = w and @y in {v, 2})'),
     ('expression', 'not (q in {1, 2, r}) implies (s in [lo to INF]! and t in xs)'),
     ('property', 'after t as A {a > 1}: (u {b = @A.a} or w) causes z {c = d} within 100 ms'),
